@@ -127,6 +127,14 @@ def run(ctx):
             if len(contents) > 1 and er != "ESTALE":
                 violations.append({"what": "two copies of the key after a reported success: %s (failed call: %s %s on %s)" % (sorted(keyfiles), call, er, path), "classification": dict(label, kind="duplicate"),
                                    "replay": {"kind": "fault", "scenario": L, "fault_seq": seq, "errno": er, "result": impl.results[1][1], "copies": sorted(keyfiles)}})
+        # 2b. a failed call must not be masked as a miss: the entry exists, the fault is not an absence
+        if desc["pre"] in ("present", "alt") and er not in ("ESTALE", "ENOENT"):
+            if (opn == "get" and cls == "OkNone") or (opn == "touch" and impl.results[1][1].startswith("OkBool 0")):
+                violations.append({"what": "%s reported a miss although the entry exists (failed call: %s %s on %s)" % (opn, call, er, path), "classification": dict(label, kind="masked-miss"),
+                                   "replay": {"kind": "fault", "scenario": L, "fault_seq": seq, "errno": er, "result": impl.results[1][1]}})
+            if opn in ("ensure", "gou") and cls == "OkSome" and d.get("content") == "P" and desc["op"][1] != "replace":
+                violations.append({"what": "%s re-populated although the entry exists (failed call: %s %s on %s)" % (opn, call, er, path), "classification": dict(label, kind="masked-miss"),
+                                   "replay": {"kind": "fault", "scenario": L, "fault_seq": seq, "errno": er, "result": impl.results[1][1]}})
         # 3. directories stay valid: every key-named file is complete and read-only
         for p, f in snap.items():
             if f[1] == "f" and p.startswith("w/") and ".kismet_temp" not in p:
